@@ -687,7 +687,15 @@ fn wrap_rows(rows: &mut [RowRun], rng: &mut Rng) -> Deco {
         col_shape: if rng.chance(1, 3) { 9 } else { rng.below(6) as usize },
         ncols: *rng.pick(&[1usize, 2, 3, 7, 1024, 16384]),
         bits: if rng.chance(1, 2) { rng.below(2048) as u32 } else { 0 },
-        astyle: if rng.chance(1, 3) { rng.below(32 * 8) as u32 } else { 0 },
+        // (white space in the table's END tag only on sheets of small declared extent: a reader that misses that end tag
+        // appends the next sheet's rows, which must stay a replayable wrong range, not an allocation failure)
+        astyle: if rng.chance(1, 3) {
+            // the sheets that may follow (decoys: 2003 rows x 41 columns) count into that extent
+            let safe_with_followers = (total_rows + 2100).saturating_mul(max_cols.max(41)) <= (1 << 21);
+            (rng.below(32 * 8) as u32) & if safe_with_followers { !0 } else { !16 }
+        } else {
+            0
+        },
     }
 }
 
@@ -1075,8 +1083,8 @@ fn run_file(rows: &[RowRun], deco: Deco, drv: &mut Driver, stored: bool) -> File
                 ],
             )
         };
-        book.sheets.insert(0, decoy("A decoy"));
-        book.sheets.push(decoy("Zz decoy"));
+        book.sheets.insert(0, decoy("Summary"));
+        book.sheets.push(decoy("Archive"));
     }
     // sheets that declare rows but store no cell at all, in front of sheets with data
     let blank_sheet = |name: &str| {
@@ -1089,12 +1097,13 @@ fn run_file(rows: &[RowRun], deco: Deco, drv: &mut Driver, stored: bool) -> File
     };
     if deco.bits & 256 != 0 {
         let at = book.sheets.iter().position(|s| s.name == "Sheet1").unwrap();
-        book.sheets.insert(at, blank_sheet("Blank before"));
+        book.sheets.insert(at, blank_sheet("Sheet10"));
     }
     if deco.bits & 512 != 0 {
-        book.sheets.insert(0, blank_sheet("0 blank first"));
+        book.sheets.insert(0, blank_sheet("zz blank first"));
     }
     let others: Vec<OdsSheet> = book.sheets.iter().filter(|s| s.name != "Sheet1").cloned().collect();
+    let doc_names: Vec<String> = book.sheets.iter().map(|s| s.name.clone()).collect();
     book.stored = stored;
     let bytes = book.to_bytes();
     let bytes_len = bytes.len();
@@ -1110,6 +1119,28 @@ fn run_file(rows: &[RowRun], deco: Deco, drv: &mut Driver, stored: bool) -> File
             if let Some(msg) = check_sheet(&r, &fr, &o.grid()) {
                 return Err(format!("other-sheet '{}': {msg}", o.name));
             }
+        }
+        // access paths agree: the n-th sheet in DOCUMENT order (sheet_names / worksheet_range_at), the sheet of that
+        // name, and the entry of that name in worksheets()
+        let names = ods.sheet_names();
+        if names != doc_names {
+            return Err(format!("sheet_names {names:?}, document order {doc_names:?}"));
+        }
+        let all = ods.worksheets();
+        for (n, name) in names.iter().enumerate() {
+            let by_name = ods.worksheet_range(name).map_err(|e| format!("err:{e:?}"))?;
+            let same = |x: &calamine::Range<Data>| x.start() == by_name.start() && x.end() == by_name.end() && x.rows().eq(by_name.rows());
+            match ods.worksheet_range_at(n) {
+                Some(Ok(r)) if same(&r) => {}
+                other => return Err(format!("worksheet_range_at({n}) is not sheet '{name}': {:?}", other.map(|r| r.map(|r| (r.start(), r.end())))))
+            }
+            match all.iter().find(|(k, _)| k == name) {
+                Some((_, r)) if same(r) => {}
+                _ => return Err(format!("worksheets() entry '{name}' differs from worksheet_range")),
+            }
+        }
+        if all.len() != names.len() {
+            return Err(format!("worksheets() has {} entries for {} sheets", all.len(), names.len()));
         }
         // reading is independent of the reader's option history: after Row(a) / FirstNonEmptyRow / Row(b) detours the
         // same value reads the same ranges as a freshly opened one (cut by the public `Range::range`)
@@ -1398,6 +1429,10 @@ fn file_corpus() -> Vec<&'static str> {
         ":f3ff0000000000000;_@0.0.0.0.3*3;f4000000000000000",
         ":f3ff0000000000000/Q0.0.5q3:_/:f4000000000000000",
         ":f4008000000000000@0.0.0.0.5*7;s78/Q0.0.6q2:_@0.0.0.0.4*12;_@0.0.0.0.6*3;b1",
+        // seeded C04-m17: end tags with white space before `>` (table, row, cell, paragraph) and further sheets after it
+        "P9.1.64.24@Q16.0.0q:f3ff0000000000000>@24.0.0.0.0;s61@16.0.0.0.0/Q24.0.0q2:_>@16.0.0.0.0*2;b1",
+        // seeded C04-m18: five sheets whose document order is not their name order, read by index, by name and through worksheets()
+        "P9.1.832.0@:f3ff0000000000000;s61",
         // spans, annotations (on a value, a string, a blank), foreign attributes, hidden rows, soft page breaks
         "VKY:f3ff0000000000000^2x2#+~;c;s61#;_#*2;b1+/F:c;c;s782079#+",
     ]
@@ -1957,6 +1992,9 @@ fn file_counters(rows: &[RowRun], grid: &verif_harness::odsw::Grid, c: &mut Vec<
     if rows.iter().any(|r| r.repeat_spelling != 0 || r.cells.iter().any(|c| c.repeat_spelling != 0)) {
         c.push(("file.count_spelling", 1));
     }
+    if rows.iter().any(|r| r.attr_style.sep >= 2 || r.cells.iter().any(|c| c.attr_style.sep >= 2)) {
+        c.push(("file.space_in_end_tag", 1));
+    }
     if rows.iter().any(|r| r.visibility.is_some()) {
         c.push(("file.row_visibility", 1));
     }
@@ -2106,7 +2144,9 @@ fn main() {
          under test, every sheet of the file checked; foreign-namespace twins (x:value-type, x:number-columns-repeated, x:value, \
          x:formula … with other values) before and/or after the real attributes of cells, rows and tables; tables nested in value \
          and blank cells (sub-table, table in a draw:frame); repeat counts of cells and rows spelled +k, 00k, with a decimal or hexadecimal character reference, or with a blank \
-         before / after the digits), read with Ods::worksheet_range and worksheet_formula and compared with the bounding-box oracle \
+         before / after the digits; end tags of tables, rows, cells and paragraphs with white space before `>`; the extra sheets \
+         named so that document order differs from name order, every sheet read by index (worksheet_range_at), by name and \
+         through worksheets()), read with Ods::worksheet_range and worksheet_formula and compared with the bounding-box oracle \
          of the grid, the Lean model getRange(collectV/collectF runs) and the Lean spec bbox/expand. cell: one table-cell element whose \
          attributes (value-type, 0..2 value attributes, formula, foreign attributes incl. calcext:value-type) stand in random order, \
          70 % well-formed (one value-type with its matching value attribute or text content), attributes spelled with either quote and any white space around `=`, string content with a `text:s` whose \
